@@ -519,6 +519,15 @@ _collection_resolver = AbstractTypeResolver("""),
             self._validate(iterable_data)
         with self._load_and_save, self._suspend_sync:
             self._data.extend(""")]),
+    dict(id="c15-context-restores-capacity-directly", fires={"C15": "C15.b"},
+         edits=[(BUF + "file_buffered_collection.py", "                self._cls.set_buffer_capacity(original_buffer_capacity)", "                self._cls._BUFFER_CAPACITY = original_buffer_capacity")]),
+    dict(id="c16-to-base-falls-back-by-truthiness", fires={"C16": "C16.f"},
+         edits=[(DT + "synced_dict.py", """            switch_type = _sc_resolver.get_type(value)
+            if switch_type == "SYNCEDCOLLECTION":
+                converted[key] = value._to_base()
+            else:
+                converted[key] = value""", """            nested = value._to_base() if _sc_resolver.get_type(value) == "SYNCEDCOLLECTION" else None
+            converted[key] = nested or value""")]),
     dict(id="c19-memoizes-lying-class", fires={"C19": "C19.e"},
          edits=[("utils.py", """            if getattr(obj, "__class__", obj_type) is obj_type and not issubclass(
                 obj_type, tuple(self.cache_blocklist)
